@@ -663,11 +663,13 @@ func (c *client) prepareResultChannels(
 	if c.done {
 		// Close has told the peer that no more work is coming and is waiting for the goroutines of this client to end;
 		// registering another run would start a read loop that nothing ends any more.
+		closeUnregistered(emittedSignals)
 		return fmt.Errorf("the client has been closed, cannot execute step with run ID '%s'", stepData.RunID)
 	}
 	if c.streamError != nil {
 		// Checked in the critical section that registers the run: a run that registers before the failure is failed
 		// with all others, a run that comes later is refused here. Neither waits for a reply that cannot come.
+		closeUnregistered(emittedSignals)
 		return fmt.Errorf(
 			"cannot execute step with run ID '%s', the connection to the plugin has failed before (%w)",
 			stepData.RunID, c.streamError)
@@ -695,6 +697,14 @@ func (c *client) prepareResultChannels(
 		}()
 	}
 	return nil
+}
+
+// closeUnregistered closes the signal channel of a run that is refused before anything of it is registered: the run is
+// over for whoever reads the channel, as after any other run. Nobody else knows the channel yet.
+func closeUnregistered(emittedSignals chan<- schema.Input) {
+	if emittedSignals != nil {
+		close(emittedSignals)
+	}
 }
 
 // getResultV2 communicates with the RuntimeMessage loop to get the ExecutionResult.
